@@ -29,7 +29,7 @@ ID = "C17"
 LEVEL = "fault_enumeration"
 ANCHORS = ["prov.model:ProvDocument.serialize"]
 NAMES = ["plain.out", "with space.out", "ünï-cødé.out", "a#b.out", "x?y=1.out", "semi;colon.out", "c:d.out", "per%20cent.out", "sub/dir.out",
-         "ABS", "trailing.", "file:REL", "dotted..name", "~tilde.out", "FILEURL", "run:1.out", "prov-2.0:out file.out", "http:x.out", "+plus.out", "LINK/../via-symlink.out", "SYMLINK-TO-FILE"]
+         "ABS", "trailing.", "file:REL", "dotted..name", "~tilde.out", "FILEURL", "run:1.out", "prov-2.0:out file.out", "http:x.out", "+plus.out", "LINK/../via-symlink.out", "SYMLINK-TO-FILE", "A-DIRECTORY", "SYMLINK-TO-DIR"]
 FORMATS = ["json", "xml", "provn", "rdf"]
 _audit = {"on": False, "log": []}
 
@@ -128,6 +128,21 @@ def resolve_name(kind, box):
                 f.write(b"previous content that must survive\n" * 40)
             os.symlink(os.path.join("vault", "current.out"), os.path.join(box, "latest.out"))
         return "latest.out", os.path.join(box, "latest.out")
+    if kind == "SYMLINK-TO-DIR":
+        # the name is a symbolic link to a directory: the document replaces the link (the name then is the file); nothing is
+        # written into the directory
+        os.makedirs(os.path.join(box, "store2"), exist_ok=True)
+        with open(os.path.join(box, "store2", "keep.txt"), "wb") as f:
+            f.write(b"kept\n")
+        if not os.path.lexists(os.path.join(box, "latest-dir")):
+            os.symlink("store2", os.path.join(box, "latest-dir"))
+        return "latest-dir", os.path.join(box, "latest-dir")
+    if kind == "A-DIRECTORY":
+        # the name is an existing, non-empty directory: no file can be written under that name
+        os.makedirs(os.path.join(box, "results.d"), exist_ok=True)
+        with open(os.path.join(box, "results.d", "keep.txt"), "wb") as f:
+            f.write(b"kept\n")
+        return "results.d", os.path.join(box, "results.d")
     if kind == "LINK/../via-symlink.out":
         # LINK -> store/deep : the operating system resolves LINK/.. to store/, a lexical normalisation would say "."
         os.makedirs(os.path.join(box, "store", "deep"), exist_ok=True)
@@ -299,7 +314,7 @@ def run_inprocess(ctx, case, problems):
         writes = [0]
         with Box(ctx.root) as box:
             arg, dest = resolve_name(case["name"], box.dir)
-            if present or case["name"] == "SYMLINK-TO-FILE":
+            if (present and case["name"] != "SYMLINK-TO-DIR") or case["name"] == "SYMLINK-TO-FILE":
                 with open(dest, "wb") as f:
                     f.write(PREV)
             before = listing(box.dir, box.tmp)
@@ -387,6 +402,24 @@ def run_inprocess(ctx, case, problems):
                         ctx.count("stray_files_after_failure", len(strays))
             return writes[0]
 
+    if case["name"] == "A-DIRECTORY":
+        # the success clause cannot be met: the call has to fail, and then nothing may have changed anywhere
+        with Box(ctx.root) as box:
+            arg, dest = resolve_name(case["name"], box.dir)
+            before = listing(box.dir, box.tmp)
+            try:
+                doc.serialize(arg, format=fmt, **kw)
+                outcome = "returned normally"
+            except Exception as e:
+                outcome = "raised %s" % type(e).__name__
+            after = listing(box.dir, box.tmp)
+            ctx.count("directory_destination.%s" % outcome.split(" ")[0])
+            changed = sorted(os.path.relpath(p, ctx.root) for p in set(before) | set(after) if before.get(p) != after.get(p))
+            if outcome == "returned normally":
+                problems.append({"fault": None, "problem": "serialize(%r) returned normally although the name is a directory; files created/modified: %s" % (arg, changed)})
+            elif changed:
+                problems.append({"fault": None, "problem": "serialize(%r) %s and left files created/modified/removed: %s" % (arg, outcome, changed)})
+        return 1
     nwrites = attempt(None)
     if problems:
         return injected
@@ -487,6 +520,8 @@ def run_oslevel(ctx, case, problems):
         return 0
     fmt = case["fmt"]
     injected = 0
+    if case["name"] == "A-DIRECTORY":
+        return 0
     RDF_SYNTAX[0] = (case.get("kw") or {}).get("rdf_format", "trig")
     PREV = b"previous content that must survive\n" * 40
     for fs_name, base in (("same_fs", ctx.root), ("other_fs", ctx.shm)):
@@ -522,7 +557,7 @@ def run_oslevel(ctx, case, problems):
                     else:
                         shutil.rmtree(q)
                 resolve_name(case["name"] if case["name"] not in ("file:REL",) else "plain.out", box)   # re-creates sub-directories / links
-                if case["present"]:
+                if case["present"] and case["name"] != "SYMLINK-TO-DIR":
                     with open(dest, "wb") as f:
                         f.write(PREV)
 
@@ -536,7 +571,7 @@ def run_oslevel(ctx, case, problems):
                     return injected
                 ctx.count("oslevel.clean_run_failed")
                 continue
-            if not os.path.exists(dest):
+            if not os.path.isfile(dest):
                 problems.append({"fault": "os:clean", "problem": "child wrote nothing to %r" % dest})
                 return injected
             full = open(dest, "rb").read()
@@ -560,13 +595,13 @@ def run_oslevel(ctx, case, problems):
                 plans.append("openat:error=EACCES:when=%d" % k)
             for inj in plans:
                 reset()
-                before = open(dest, "rb").read() if os.path.exists(dest) else None
+                before = (open(dest, "rb").read() if os.path.isfile(dest) else None)
                 try:
                     p = child(inj)
                 except subprocess.TimeoutExpired:
                     ctx.count("oslevel.timeout")
                     continue
-                after = open(dest, "rb").read() if os.path.exists(dest) else None
+                after = (open(dest, "rb").read() if os.path.isfile(dest) else None)
                 injected += 1
                 ctx.count("oslevel.faults.%s.%s" % (fs_name, inj.split(":")[0] + ("/kill" if "SIGKILL" in inj else "/err")))
                 if after != before and not (after is not None and same_serialisation(fmt, after, full, None)):
